@@ -87,10 +87,24 @@ func (e *Eng) funcEnv(fr *Frame) *Env {
 			}
 		}
 		for n, set := range addrs {
-			if _, have := fr.locals[n]; !have && len(set) == 1 && len(vals[n]) == 0 {
+			if _, have := fr.locals[n]; !have && len(set) == 1 {
 				for v := range set {
 					fr.locals[n] = v
 				}
+			}
+		}
+		// address-taken variables are also recognisable by the name go/ssa records on their allocation
+		byComment := map[string][]ssa.Value{}
+		for _, b := range fr.fn.Blocks {
+			for _, ins := range b.Instrs {
+				if a, ok := ins.(*ssa.Alloc); ok && a.Comment != "" && a.Comment != "complit" && a.Comment != "slicelit" && a.Comment != "varargs" {
+					byComment[a.Comment] = append(byComment[a.Comment], a)
+				}
+			}
+		}
+		for n, as := range byComment {
+			if _, have := fr.locals[n]; !have && len(as) == 1 {
+				fr.locals[n] = as[0]
 			}
 		}
 	}
@@ -710,6 +724,9 @@ func (e *Eng) evalCall(n *ECall, env *Env, cur, old *State) *Val {
 	case "buflen":
 		a := e.eval(n.Args[0], env, cur, old)
 		return ival(sel(e.get(cur, "BL", "(Array Int Int)"), a.T))
+	case "closed":
+		a := e.eval(n.Args[0], env, cur, old)
+		return bval(sel(e.get(cur, chanClosedRegion, "(Array Int Bool)"), a.T))
 	case "sliceEq":
 		// same header (same backing array, offset, length)
 		as := args()
